@@ -17,6 +17,7 @@ func init() {
 			Kind: slip.MacroSymbol,
 			Name: "return",
 			Args: []*slip.DocArg{
+				{Name: "&optional"},
 				{
 					Name: "result",
 					Type: "object",
@@ -38,6 +39,7 @@ type Return struct {
 
 // Call the function with the arguments provided.
 func (f *Return) Call(s *slip.Scope, args slip.List, depth int) slip.Object {
+	slip.CheckArgCount(s, depth, f, args, 0, 1)
 	rr := slip.ReturnResult{}
 	if !s.InBlock(nil) {
 		slip.ControlPanic(s, depth, "return from unknown block: nil")
